@@ -489,6 +489,20 @@ def build_config_model(repo, mc, ml):
                     return fn(me, *a, **k)
                 bound.model_callable = True
                 return bound
+            # instance attributes that __init__ sets from an expression
+            # independent of its arguments (counters, empty containers)
+            init = own.get("__init__")
+            for n in (ast.walk(init) if init is not None else ()):
+                if isinstance(n, ast.Assign) and any(
+                        isinstance(t, ast.Attribute) and t.attr == attr
+                        and isinstance(t.value, ast.Name)
+                        and t.value.id == "self" for t in n.targets):
+                    try:
+                        val = interp.ev(n.value, {}, globs, None)
+                    except AnalysisError:
+                        break
+                    self.__dict__[attr] = val
+                    return val
             raise AnalysisError(
                 f"ConfigurationDict.__setitem__ uses self.{attr}, which is "
                 "not modelled")
@@ -2532,4 +2546,17 @@ MUTANTS = list(MUTANTS) + [
        "    def _store_checked_metadata(self, meta):\n"
        "        # update version\n        old_version = meta.get(")],
      "R11.4"),
+]
+
+# keeps its footing: an argument-free instance attribute set in __init__ and
+# updated in __setitem__ (not a C11 matter)
+TWINS = list(TWINS) + [
+    ("ConfigurationDict counts its modifications", CONF,
+     [("        self.section = section\n"
+       "        super(ConfigurationDict, self).__init__(*args, **kwargs)\n",
+       "        self.section = section\n        self.revision = 0\n"
+       "        super(ConfigurationDict, self).__init__(*args, **kwargs)\n"),
+      ("            super(ConfigurationDict, self).__setitem__(key, value)\n",
+       "            super(ConfigurationDict, self).__setitem__(key, value)\n"
+       "            self.revision += 1\n")]),
 ]
